@@ -660,6 +660,10 @@ class Explorer(object):
                 ref_status = "missing input"
             self._refcache[ckey] = (ref, refseq, ref_status)
         hazards = sorted(ref.hazards) if ref is not None else []
+        if ref is not None and not hazards:
+            # after a value that a known defect gets wrong the machine may do anything (e.g. '1 max mod' gives -1 and a
+            # following 'min swap /' traps): keep such runs out of this process as well
+            hazards = sorted(self.derived_marks(ref, bits))
         if hazards:
             kind, payload = isolated(lambda: self.cpp_part(case, bits, cfg, prog, ref_compile, ref, refseq, ref_status, first))
             if kind != "ok":
@@ -1330,7 +1334,10 @@ class C19(runner.Check):
             "pair after reduced operand tuples), literal, control (if/else, do/loop/+loop incl. zero/negative steps and i j k, "
             "begin/until/while/again, exit/halt/pause, definitions and recursion past the limit, variables, strings, print), "
             "pause (pause inserted at every token boundary), read_stack/read_out (every typed read word x #-counts x output "
-            "dtypes x prefix-closed byte strings over {00,01,7f,80,ff}), varint/zigzag/nbit, seek/skip, output "
+            "dtypes x prefix-closed byte strings over {00,01,7f,80,ff} ({00,3f,80,c0,41,7f,ff} for floats, {00,01} for bool): "
+            "all strings up to 2*size bytes for 1- and 2-byte types (quick: 3 bytes for 2-byte types); for 4- and 8-byte types "
+            "all strings up to 1 (quick) / 3 (thorough) bytes plus every prefix of every pair of items drawn from 7 (quick) / "
+            "17 (thorough) edge patterns; quick read_out uses every third input), varint/zigzag/nbit, seek/skip, output "
             "(<- +<- dup rewind len x dtypes x operands), compile (every one-token deletion/duplication/substitution of 13 "
             "programs). non-trivial = the program was compiled by both sides and ran to a specified end state (done or a "
             "specified error), or was rejected by the compiler; distinct by construction of the families.")
